@@ -117,6 +117,8 @@ type c03In struct {
 	CutAt    int         `json:"cutAt"` //
 
 	CStream  bool     `json:"cstream"`  // clientMaxBodySize -1
+	FailCodes []int   `json:"failCodes"` // pool failureCodes
+	Retry     bool    `json:"retry"`     // pool retryPolicy (2 attempts, 1ms)
 	CNeg     int64    `json:"cneg"`     // the negative clientMaxBodySize used when CStream (0 = -1)
 	Mirror   bool     `json:"mirror"`   // the proxy has a mirrorPool (second backend) matching requests with "X-Mirror: 1"
 	SStream  bool     `json:"sstream"`  // serverMaxBodySize -1 (proxy level), when PoolMax = ProxyMax = 0
@@ -376,7 +378,11 @@ func c03PipelineYAMLExt(in *c03In, addr string, mc *c03Cache, ed *c03Edit) strin
 
 func c03PipelineYAMLFull(in *c03In, addr, mirrorAddr string, mc *c03Cache, ed *c03Edit) string {
 	var w strings.Builder
-	w.WriteString("name: p\nkind: Pipeline\nfilters:\n")
+	w.WriteString("name: p\nkind: Pipeline\n")
+	if in.Retry {
+		w.WriteString("resilience:\n- name: again\n  kind: Retry\n  maxAttempts: 2\n  waitDuration: 1ms\n")
+	}
+	w.WriteString("filters:\n")
 	adapt := func(kind, name string, a c03Adapt) {
 		if !a.On {
 			return
@@ -424,6 +430,12 @@ func c03PipelineYAMLFull(in *c03In, addr, mirrorAddr string, mc *c03Cache, ed *c
 	}
 	_, port, _ := net.SplitHostPort(addr)
 	w.WriteString("  pools:\n  - ")
+	if len(in.FailCodes) > 0 {
+		fmt.Fprintf(&w, "failureCodes: %s\n    ", strings.ReplaceAll(fmt.Sprint(in.FailCodes), " ", ", "))
+	}
+	if in.Retry {
+		w.WriteString("retryPolicy: again\n    ")
+	}
 	if in.PoolMax != 0 {
 		fmt.Fprintf(&w, "serverMaxBodySize: %d\n    ", in.PoolMax)
 	}
@@ -678,7 +690,7 @@ func c03Text(r *vfRand, n int) []byte {
 // spellings, several codings (one field value or several field lines), identity, deflate,
 // codings nobody on the path understands (they must pass through with their label).
 func c03Encode(r *vfRand, text []byte, hs [][2]string) ([]byte, [][2]string) {
-	return c03EncodeK(r.Intn(12), text, hs)
+	return c03EncodeK(r.Intn(14), text, hs) // every shape but the trailing-garbage one
 }
 
 func c03EncodeK(k int, text []byte, hs [][2]string) ([]byte, [][2]string) {
@@ -688,7 +700,8 @@ func c03EncodeK(k int, text []byte, hs [][2]string) ([]byte, [][2]string) {
 		}
 		return hs
 	}
-	switch k % 12 {
+	half := len(text) / 2
+	switch k % 15 {
 	case 0:
 		return c03Gzip(text), ce("GZIP")
 	case 1:
@@ -711,8 +724,14 @@ func c03EncodeK(k int, text []byte, hs [][2]string) ([]byte, [][2]string) {
 		return text, ce("gzip, br")
 	case 10:
 		return c03Gzip(text), ce("identity, gzip")
-	default:
+	case 11:
 		return c03Gzip(c03Deflate(text)), ce("Deflate,X-GZIP")
+	case 12: // a gzip body of two members (RFC 1952: a gzip file is a series of members)
+		return append(c03Gzip(text[:half]), c03Gzip(text[half:])...), ce("gzip")
+	case 13: // three members, one of them empty
+		return append(append(c03Gzip(text[:half]), c03Gzip(nil)...), c03Gzip(text[half:])...), ce("gzip")
+	default: // a member followed by bytes that are no gzip header: not a valid gzip body
+		return append(c03Gzip(text), []byte("trailing garbage")...), ce("gzip")
 	}
 }
 
@@ -727,11 +746,12 @@ func c03GenLabel(r *vfRand, j int) (in c03In) {
 	in.RespStatus, in.RespEnc, in.RespChunk = 200, r.PickStr("cl", "chunked"), 64
 	text := c03Text(r, r.PickInt(1, 40, 300))
 	in.RespBody, in.RespHeaders = c03EncodeK(j, text, [][2]string{{"Content-Type", "text/plain; charset=utf-8"}})
-	switch (j / 12) % 5 {
+	switch (j / 15) % 5 {
 	case 0:
 		in.RS = c03Adapt{On: true, Decompress: true}
 	case 1:
-		in.RS, in.SStream = c03Adapt{On: true, Decompress: true}, true
+		// (an invalid gzip body decoded as a stream ends somewhere in the middle: buffered only)
+		in.RS, in.SStream = c03Adapt{On: true, Decompress: true}, j%15 != 14
 	case 2:
 		in.MinLen, in.RespEnc = 0, "chunked"
 	case 3:
@@ -803,8 +823,12 @@ func c03Gen(r *vfRand, adv bool) (in c03In) {
 	if in.ReqEnc != "none" {
 		in.ReqBody = c03Text(r, c03Size(r, 0, big))
 		in.ReqChunk = r.PickInt(1, 7, 100, 4096, 1<<20)
-		if r.Chance(1, 6) { // gzip-labelled request body
-			in.ReqBody = c03Gzip(in.ReqBody)
+		if r.Chance(1, 6) { // gzip-labelled request body, sometimes of several members
+			if h := len(in.ReqBody) / 2; r.Chance(1, 3) {
+				in.ReqBody = append(append(c03Gzip(in.ReqBody[:h]), c03Gzip(nil)...), c03Gzip(in.ReqBody[h:])...)
+			} else {
+				in.ReqBody = c03Gzip(in.ReqBody)
+			}
 			in.Headers = append(in.Headers, [2]string{"Content-Encoding", "gzip"})
 		} else if r.Chance(1, 12) {
 			in.ReqBody, in.Headers = c03Encode(r, in.ReqBody, in.Headers)
@@ -887,6 +911,14 @@ func c03Gen(r *vfRand, adv bool) (in c03In) {
 
 	// backend response
 	in.RespStatus = r.PickInt(200, 200, 200, 201, 202, 301, 302, 400, 404, 418, 500, 502, 503)
+	// pool failureCodes (with and without a retry policy), often naming the backend's status
+	if r.Chance(1, 4) || (adv && r.Bool()) {
+		in.FailCodes = [][]int{{500}, {502, 503}, {404}, {500, 503, 404}, {418}}[r.Intn(5)]
+		if r.Bool() && in.RespStatus >= 400 {
+			in.FailCodes = []int{in.RespStatus}
+		}
+		in.Retry = r.Chance(1, 3)
+	}
 	in.RespEnc = r.PickStr("cl", "cl", "cl", "chunked", "chunked", "close")
 	if adv {
 		in.RespEnc = r.PickStr("cl", "cl", "cl", "chunked")
@@ -906,6 +938,9 @@ func c03Gen(r *vfRand, adv bool) (in c03In) {
 	}
 	if r.Chance(1, 10) {
 		hs = hs[1:] // no Content-Type: net/http sniffs one
+	}
+	if len(hs) == 0 { // never a header-less answer: it would look like the gateway's own failure response
+		hs = append(hs, [2]string{"X-Resp", "r0"})
 	}
 	if r.Chance(1, 4) || (adv && r.Chance(1, 3)) { // the backend's body carries content codings
 		if r.Bool() && !adv {
@@ -1123,6 +1158,10 @@ func c03GenHist(r *vfRand, adv bool) (h c03HistIn) {
 	var cfg c03In
 	cfg.SrvHost, cfg.MinLen = "127.0.0.1", r.PickInt(-1, -1, 0, 100)
 	cfg.SStream = !adv && r.Chance(1, 10)
+	if r.Chance(1, 4) {
+		cfg.FailCodes = [][]int{{500}, {404}, {404, 500}}[r.Intn(3)]
+		cfg.Retry = r.Chance(1, 3)
+	}
 	switch r.Intn(7) {
 	case 0, 1:
 		cfg.RS = c03Adapt{On: true, Compress: true}
